@@ -290,6 +290,18 @@ REFUTING_CATEGORIES = {
 UNDECIDED_CATEGORIES = {"unwind", "unsupported_construct", "missing_definition", "unwinding", "internal"}
 
 
+def default_jobs():
+    """Parallel CBMC processes: up to 10, at most one per 5 GB of memory currently available (L2 obligations need 3-5 GB)."""
+    try:
+        for line in open("/proc/meminfo"):
+            if line.startswith("MemAvailable:"):
+                gb = int(line.split()[1]) // (1024 * 1024)
+                return max(2, min(10, NCPU - 2, gb // 5))
+    except Exception:
+        pass
+    return 6
+
+
 def rss_watchdog(stop, limit_gb, killed):
     """Kill any cbmc process whose RSS exceeds the limit (reported as undecided, never as an alarm)."""
     limit_kb = limit_gb * 1024 * 1024
@@ -655,7 +667,7 @@ def run_property(prop, tier, seed):
                 # one `cargo kani` invocation (one build of the crate) per distinct CBMC argument list
                 gid = hashlib.sha256((" ".join(o.get("cbmc_args", [])) + "|" + (o["id"] if o.get("unwindset") else "")).encode()).hexdigest()[:8]
                 groups.setdefault(gid, []).append(o)
-            total_jobs = int(os.environ.get("VERIF_JOBS", "10"))
+            total_jobs = int(os.environ.get("VERIF_JOBS", "0")) or default_jobs()
             n_all = sum(len(g) for g in groups.values())
             with cf.ThreadPoolExecutor(max_workers=max(1, len(groups))) as ex:
                 futs = {ex.submit(run_kani_group, scratch, gid, g, max(1, min(len(g), (total_jobs * len(g) + n_all - 1) // n_all))): gid for gid, g in groups.items()}
